@@ -441,7 +441,10 @@ pub fn run_session(session: &Session, want: &Want) -> Result<Vec<ReplicaOut>, St
         let s = shared.clone();
         let w = want.clone();
         let e = session.replicas[i].entropy;
+        // replicas run one at a time, so the process-global log level is part of the replica's environment
+        crate::set_logging(session.replicas[i].role.starts_with("logging"));
         let (steps, calls) = crate::entropy::with_entropy(e, move || run_replica_here(&s, &s.replicas[i], &w))?;
+        crate::set_logging(false);
         outs.push(ReplicaOut { steps, getrandom_calls: calls });
     }
     Ok(outs)
